@@ -87,6 +87,25 @@ func checkLiteral(s string) (msg string, class string) {
 				return fmt.Sprintf("%s: literal %q evaluated to %s, it denotes %s", f, s, got.String(), val), "valid"
 			}
 		}
+		// next to a string literal of the same spelling, either way round: the number stays a number, the string a string
+		if c12CtxCount%3 == 0 && !strings.ContainsAny(s, "'\\") {
+			for _, f := range []string{"['" + s + "', " + s + "]", "[" + s + ", '" + s + "']"} {
+				out := obs.EvalText(f, nil)
+				arr, ok := out.Val.([]interface{})
+				if out.Panic != nil || out.Err != nil || !ok || len(arr) != 2 {
+					return fmt.Sprintf("%s: valid literal %q next to a string of the same spelling: %s", f, s, out), "valid"
+				}
+				ni, si := 1, 0
+				if f[1] != '\'' {
+					ni, si = 0, 1
+				}
+				d, isNum := arr[ni].(*decimal.Big)
+				str, isStr := arr[si].(string)
+				if !isNum || !sameValue(d, val) || !isStr || str != s {
+					return fmt.Sprintf("%s = %s, want the number %s and the string %q", f, out, val, s), "valid"
+				}
+			}
+		}
 		// the literal as the whole formula (its value is handed back by reference): evaluates, and - through the
 		// repeat / re-read checks of obs.EvalText - keeps evaluating to the same float64
 		if top := obs.EvalText(s, nil); top.Panic != nil || top.Err != nil {
